@@ -1,5 +1,6 @@
 """C05 — expression-level gas detectors flag exactly their documented pattern (DESIGN 5/C05, section 8.1)."""
 from runner import Ob
+from rules import depend
 import sites as S
 import summary
 from rules import detectors as D
@@ -24,12 +25,16 @@ META = {
                    "and subtracted from all four inc/dec kinds found in the whole file.",
     "assumptions": ["u128::is_power_of_two / str::parse::<u128> are std's (the numeric meaning of 'power of two' is theirs)",
                     "DESIGN section 8 / specs/detectors.spec is the oracle (validation of code against a written spec)"],
-    "floors": {"R05.must": 17, "R05.mustnot": 17, "R05.incdec": 6},
+    "floors": {"R05.walker": 1, "R05.must": 17, "R05.mustnot": 17, "R05.incdec": 6},
 }
 
 
 def run(ctx, crate):
     obs = []
+    # occurrences count wherever they are nested: inherited from C01 (the search reaches every syntactic position)
+    obs.append(depend.inherited(ctx, crate, "R05.walker", "analyzer::ast::walk_node_for_targets", "the search reaches every nested position (C01's obligations on the walker)",
+                                "C01", lambda o: o.rule in ("R01.children", "R01.order", "R01.once", "R01.uncond", "R01.preorder", "R01.loops", "R01.entry"),
+                                example="the pattern inside !( .. ) or inside a catch body"))
     spec = speccmp.load_spec()
     sm = summary.Summ(crate)
     d = D.Dispatch(crate, "optimizations")
